@@ -202,3 +202,34 @@ func VerifH_C01_header() {
 	vAssert(sc.Scan(), "scan-after-header")
 	sc.Close()
 }
+
+// VerifH_C01_pairs: within ONE block, an element with every optional part is followed
+// by an arbitrary element of the same kind: the second one takes its own values and
+// format defaults, nothing from its predecessor.
+func VerifH_C01_pairs() {
+	m := &mBlock{width: vParam("width", 2)}
+	m.genStrings(vParam("strings", 3))
+	m.genParams(vRange("params", 0, 1))
+	tagsMax := func() int {
+		if vRange("hasTags", 0, 1) == 0 {
+			return -1
+		}
+		return 1
+	}
+	if vRange("kind", 0, 1) == 0 {
+		m.exact = true
+		m.ways = append(m.ways, m.genWay(0, 1, 2, 2))
+		m.exact = false
+		m.ways = append(m.ways, m.genWay(vRange("infoMode", -1, 7), tagsMax(), 1, vRange("refsMode", 0, 3)))
+	} else {
+		m.exact = true
+		m.rels = append(m.rels, m.genRel(0, 1, 1, true))
+		m.exact = false
+		m.rels = append(m.rels, m.genRel(vRange("infoMode", -1, 7), tagsMax(), 1, vRange("hasMembers", 0, 1) == 1))
+	}
+	dd := &dataDecoder{scanner: &Scanner{}}
+	objs, err := c01Decode(dd, m)
+	vReach("decoded")
+	vAssert(err == nil, "no-error")
+	vAssert(vSame(objs, m.expected()), "equals-spec")
+}
